@@ -654,6 +654,21 @@ def run_check(pid, tier):
               dict(sorted(agg['known_hits'].items())),
               dict(sorted(agg['discarded'].items()))))
 
+    if reported:
+        # violations are replayable facts about the tree under test; they
+        # are reported even if some other scenario made the harness stumble
+        # (which is then mentioned, not hidden)
+        for path, vv in reported:
+            print('violation: %s / %s' % (vv['oracle'], vv['detail']))
+            print(json.dumps(vv.get('info'), sort_keys=True)[:1500])
+            print('VIOLATION property=%s replay=%s' % (pid, path))
+
+        if harness_fail or agg['harness']:
+            print('note: %d scenario(s) also ended in a harness error' % (
+                len(agg['harness']) + (1 if harness_fail else 0)))
+
+        return 1
+
     if harness_fail or agg['harness']:
         print('HARNESS-ERROR property=%s' % pid)
 
@@ -664,14 +679,6 @@ def run_check(pid, tier):
             print('  at run/task %r:\n%s' % (where, err))
 
         return 2
-
-    if reported:
-        for path, vv in reported:
-            print('violation: %s / %s' % (vv['oracle'], vv['detail']))
-            print(json.dumps(vv.get('info'), sort_keys=True)[:1500])
-            print('VIOLATION property=%s replay=%s' % (pid, path))
-
-        return 1
 
     if agg['scenarios'] == 0:
         print('HARNESS-ERROR property=%s: nothing was explored' % pid)
